@@ -218,7 +218,7 @@ package object
 //
 //@ func object.findProp(o, propHash) res, ok
 //@   requires o != nil
-//@   requires isT(o, *PanObj) ==> as(o, *PanObj).Pairs != nil
+//@   ensures  ok ==> isVal(res)
 //@   ensures  ok <==> owns(o, propHash)
 //@   ensures  ok ==> res == propOf(o, propHash)
 //@   ensures  !ok ==> res == nil
@@ -228,8 +228,8 @@ package object
 //@ func object.FindPropAlongProtos(o, propHash) res, ok
 //@   uses     anc_zero, anc_back, anc_fwd, anc_nil
 //@   requires o == nil || isVal(o)
-//@   requires forall p *PanObj :: {p.Pairs} p != nil ==> p.Pairs != nil
 //@   ensures  ok ==> (exists k int :: k >= 0 && owns(anc(o, k), propHash) && res == propOf(anc(o, k), propHash) && noOwnerBelow(o, propHash, k))
+//@   ensures  ok ==> isVal(res)
 //@   ensures  !ok ==> res == nil && (forall k int :: {anc(o, k)} k >= 0 ==> !owns(anc(o, k), propHash))
 //@   assigns  nothing
 //@   loop 1 invariant obj == nil || isVal(obj)
@@ -238,7 +238,6 @@ package object
 //@ func object.FindPropOwner(o, propHash) res, ok
 //@   uses     anc_zero, anc_back, anc_fwd, anc_nil
 //@   requires o == nil || isVal(o)
-//@   requires forall p *PanObj :: {p.Pairs} p != nil ==> p.Pairs != nil
 //@   ensures  ok ==> (exists k int :: k >= 0 && owns(anc(o, k), propHash) && res == anc(o, k) && noOwnerBelow(o, propHash, k))
 //@   ensures  !ok ==> res == nil && (forall k int :: {anc(o, k)} k >= 0 ==> !owns(anc(o, k), propHash))
 //@   assigns  nothing
@@ -346,6 +345,8 @@ package object
 //@ invariant object.Env: self.Store != nil
 //@ invariant object.Pair: isVal(self.Key) && isVal(self.Value)
 //@ invariant object.DeferObj: self.Node != nil
+//@ invariant object.ReturnObj: isVal(self.PanObject)
+//@ invariant object.YieldObj: isVal(self.PanObject)
 //@ invariant object.PanInt: self.proto == nil || isVal(self.proto)
 //@ invariant object.PanStr: self.proto == nil || isVal(self.proto)
 //@ invariant object.PanArr: self.proto == nil || isVal(self.proto)
